@@ -120,6 +120,8 @@ func runC10(r *core.Run) {
 	r.Rule("R10.8", "slices sized from a wire count are filled completely before the parse succeeds", 2, false)
 	r.Rule("R10.9", "the format pointers taken from the previous package are nil-checked before use", 2, false)
 	r.Rule("R10.7", "parser loops consume input or range over data already held", 8, false)
+	r.Rule("R10.10", "the server's public key: the PEM block is used only where it is known non-nil (R08.9)", 1, false)
+	defer c08PemBlock(r, "R10.10")
 
 	roots := []*ssa.Function{
 		p.Func("tds", "Conn", "ReadFrom"), p.Func("tds", "Channel", "WritePacket"),
